@@ -227,19 +227,24 @@ Qed.
 Definition registered (s : sys) (k : name) : Prop := get k (running s) <> None \/ get k (donereg s) <> None.
 Definition older (o : obs) (k : name) (ix : nat) : Prop :=
   exists j yo, get j (oi o) = Some yo /\ o_nm yo = k /\ o_idx yo < ix.
-Definition lk_fact (s : sys) (o : obs) (ix : nat) (l : lookup_st) : Prop :=
+(* what a goroutine with dependency names D and creation index ix knows from its lookups *)
+Definition lk_fact (s : sys) (o : obs) (D : list name) (ix : nat) (l : lookup_st) : Prop :=
   match l with
-  | LReg k None => older o k ix -> get k (donereg s) <> None
-  | LDone2 k None => ~ older o k ix
+  | LReg k None => In k D -> older o k ix -> get k (donereg s) <> None
+  | LDone2 k None => In k D -> ~ older o k ix
   | _ => True
   end.
+Definition dnames (x : inst) : list name := map fst (deps (cf x)).
 
 Record Rk (s : sys) (o : obs) (g : gst) : Prop := mkRk {
-  rk_reg : forall j yo, get j (oi o) = Some yo -> g_pending g = Some j \/ registered s (o_nm yo);
-  rk_pending : forall j, g_pending g = Some j -> exists yo, get j (oi o) = Some yo /\ S (o_idx yo) = o_cnt o;
+  (* every created instance is still unregistered, or its name is in one of the two registries *)
+  rk_reg : forall j yo, get j (oi o) = Some yo -> In j (g_unregd g) \/ registered s (o_nm yo);
+  (* the instances of its dependencies that were created before an instance were registered by then *)
+  rk_dep : forall i x xo, get i (insts s) = Some x -> get i (oi o) = Some xo ->
+           forall k, In k (dnames x) -> older o k (o_idx xo) -> registered s k;
   rk_th : forall th i, get th (thinst s) = Some i -> get i (oi o) <> None;
-  rk_lk : forall th i xo, get th (thinst s) = Some i -> get i (oi o) = Some xo ->
-          lk_fact s o (o_idx xo) (lk (get_thread s th)) }.
+  rk_lk : forall th i x xo, get th (thinst s) = Some i -> get i (insts s) = Some x -> get i (oi o) = Some xo ->
+          lk_fact s o (dnames x) (o_idx xo) (lk (get_thread s th)) }.
 
 Lemma older_inv e o o' k ix : ole e o o' -> older o' k ix -> older o k ix.
 Proof.
@@ -247,58 +252,72 @@ Proof.
   exists j, yo. repeat split; congruence.
 Qed.
 
-Lemma lk_plain_fact s o ix l : lk_plain l -> lk_fact s o ix l.
+Lemma lk_plain_fact s o D ix l : lk_plain l -> lk_fact s o D ix l.
 Proof. destruct l as [|k [j|]|k|k [j|]|k [j|]]; cbn; tauto. Qed.
 
-Lemma lk_fact_mono e s s' o o' ix l : ole e o o' ->
+Lemma lk_fact_mono e s s' o o' D ix l : ole e o o' ->
   (forall k, get k (donereg s) <> None -> get k (donereg s') <> None) ->
-  lk_fact s o ix l -> lk_fact s' o' ix l.
+  lk_fact s o D ix l -> lk_fact s' o' D ix l.
 Proof.
   intros OL Hd. destruct l as [|k [j|]|k|k [j|]|k [j|]]; cbn; auto.
-  - intros H Q. apply Hd, H. eapply older_inv; eauto.
-  - intros H Q. apply H. eapply older_inv; eauto.
+  - intros H Hin Q. apply Hd, H; [exact Hin|]. eapply older_inv; eauto.
+  - intros H Hin Q. apply H; [exact Hin|]. eapply older_inv; eauto.
 Qed.
 
 Lemma Rk_gen e s s' o o' g g' : Rk s o g -> ole e o o' ->
-  (forall j, g_pending g' = Some j -> g_pending g = Some j) ->
-  (forall j yo, g_pending g = Some j -> get j (oi o) = Some yo -> g_pending g' = Some j \/ registered s' (o_nm yo)) ->
+  (forall i x', get i (insts s') = Some x' -> exists x, get i (insts s) = Some x /\ cf x' = cf x) ->
+  (forall j yo, In j (g_unregd g) -> get j (oi o) = Some yo -> In j (g_unregd g') \/ registered s' (o_nm yo)) ->
   (forall k, registered s k -> registered s' k) ->
   (forall k, get k (donereg s) <> None -> get k (donereg s') <> None) ->
   (forall th i, get th (thinst s') = Some i ->
       (get th (thinst s) = Some i /\ lk (get_thread s' th) = lk (get_thread s th)) \/
-      (get i (oi o') <> None /\ forall xo', get i (oi o') = Some xo' -> lk_fact s' o' (o_idx xo') (lk (get_thread s' th)))) ->
+      (get i (oi o') <> None /\ forall x' xo', get i (insts s') = Some x' -> get i (oi o') = Some xo' ->
+                                 lk_fact s' o' (dnames x') (o_idx xo') (lk (get_thread s' th)))) ->
   Rk s' o' g'.
 Proof.
-  intros [K1 K2 K3 K4] OL Hp1 Hp2 Hr Hd Ht. constructor.
+  intros [K1 K2 K3 K4] OL Hcf HU Hr Hd Ht. constructor.
   - intros j yo' H. destruct (ole_inv _ _ _ _ _ OL H) as (yo & E & (L1 & _)). rewrite L1.
-    destruct (K1 j yo E) as [Q|Q]; [eapply Hp2; eauto|right; auto].
-  - intros j Q. destruct (K2 j (Hp1 j Q)) as (yo & A & B). destruct (ole_oi _ _ _ OL j yo A) as (yo' & E & (_ & L2 & _)).
-    exists yo'. split; [exact E|]. rewrite L2, (ole_cnt _ _ _ OL). exact B.
+    destruct (K1 j yo E) as [Q|Q]; [eapply HU; eauto|right; auto].
+  - intros i x' xo' Hx' Hxo' k Hk Ho. destruct (Hcf i x' Hx') as (x & Hx & Hc).
+    destruct (ole_inv _ _ _ _ _ OL Hxo') as (xo & E & (_ & L2 & _)). rewrite L2 in Ho.
+    apply Hr. eapply (K2 i x xo); eauto; [unfold dnames in *; congruence|eapply older_inv; eauto].
   - intros th i Q. destruct (Ht th i Q) as [[Q1 _]|[Q1 _]]; [|exact Q1].
     specialize (K3 th i Q1). destruct (get i (oi o)) as [xo|] eqn:E; [|congruence].
     destruct (ole_oi _ _ _ OL i xo E) as (y' & E' & _). congruence.
-  - intros th i xo' Q Hxo'. destruct (Ht th i Q) as [[Q1 Q2]|[_ Q1]]; [|now apply Q1].
+  - intros th i x' xo' Q Hx' Hxo'. destruct (Ht th i Q) as [[Q1 Q2]|[_ Q1]]; [|now apply Q1].
+    destruct (Hcf i x' Hx') as (x & Hx & Hc).
     destruct (ole_inv _ _ _ _ _ OL Hxo') as (xo & E & (_ & L2 & _)). rewrite Q2, L2.
-    eapply lk_fact_mono; eauto.
+    unfold dnames. rewrite Hc. eapply lk_fact_mono; eauto.
 Qed.
 
-Lemma Rk_new s o o1 g i n c y0 th : Rk s o g -> Oinv o -> get i (oi o) = None -> oi o1 = set i y0 (oi o) ->
-  o_idx y0 = o_cnt o -> o_cnt o1 = S (o_cnt o) -> g_pending g = None ->
-  Rk (s <| insts := set i (new_inst n c) (insts s) |>) o1 (g_step o g (th, ENewInst i n)).
+Lemma Rk_new cs s o o1 g i n c y0 th : Rk s o g -> Oinv o -> get i (oi o) = None -> get i (insts s) = None ->
+  oi o1 = set i y0 (oi o) -> o_idx y0 = o_cnt o -> o_cnt o1 = S (o_cnt o) ->
+  conf_of cs n = c -> dep_unregistered cs o g n = false ->
+  Rk (s <| insts := set i (new_inst n c) (insts s) |>) o1 (g_step cs o g (th, ENewInst i n)).
 Proof.
-  intros [K1 K2 K3 K4] [_ OI] Hn E1 Hy Hc Hp. constructor; cbn.
+  intros [K1 K2 K3 K4] [_ OI] Hn Hni E1 Hy Hc Hcf Hfl.
+  assert (Ho : forall k ix, ix <= o_cnt o -> older o1 k ix -> older o k ix).
+  { intros k ix Hix (j' & yo & A & B & C). rewrite E1, get_set in A. destruct (N.eqb i j'); [injection A as <-; lia|].
+    exists j', yo. auto. }
+  constructor; cbn.
   - intros j yo. rewrite E1, get_set. destruct (N.eqb_spec i j); [subst; auto|].
-    intros H. destruct (K1 j yo H) as [Q|Q]; [congruence|right; exact Q].
-  - intros j Q. injection Q as <-. exists y0. rewrite E1, get_set_same. split; [reflexivity|lia].
+    intros H. destruct (K1 j yo H) as [Q|Q]; [left; now right|right; exact Q].
+  - intros j x xo. rewrite E1, !get_set. destruct (N.eqb_spec i j).
+    + subst j. intros Q1 Q2. injection Q1 as <-. injection Q2 as <-. unfold dnames. cbn [cf new_inst].
+      intros k Hk Hol. rewrite Hy in Hol. apply (Ho k _ (le_n _)) in Hol. destruct Hol as (j & yo & A & B & C).
+      destruct (K1 j yo A) as [Q|Q]; [exfalso|now rewrite B in Q].
+      unfold dep_unregistered in Hfl. rewrite Hcf in Hfl.
+      assert (existsb (fun j0 => memN (o_nm (oi_get o j0)) (map fst (deps c))) (g_unregd g) = true); [|congruence].
+      apply existsb_exists. exists j. split; [exact Q|]. unfold oi_get. rewrite A, B. now apply memN_In.
+    + intros Hx Hxo k Hk Hol. eapply K2; eauto. apply Ho; [|exact Hol]. specialize (OI j xo Hxo). lia.
   - intros t j Q. rewrite E1, get_set. destruct (N.eqb i j); [discriminate|eapply K3; eauto].
-  - intros t j xo Q. rewrite E1, get_set. destruct (N.eqb_spec i j).
+  - intros t j x xo Q. rewrite E1, !get_set. destruct (N.eqb_spec i j).
     + subst j. exfalso. eapply K3; eauto.
-    + intros Hxo. specialize (K4 t j xo Q Hxo). specialize (OI j xo Hxo).
-      assert (Ho : forall k, older o1 k (o_idx xo) -> older o k (o_idx xo)).
-      { intros k (j' & yo & A & B & C). rewrite E1, get_set in A. destruct (N.eqb i j'); [injection A as <-; lia|].
-        exists j', yo. auto. }
+    + intros Hx Hxo. specialize (K4 t j x xo Q Hx Hxo). specialize (OI j xo Hxo).
       change (get_thread (s <| insts := set i (new_inst n c) (insts s) |>) t) with (get_thread s t).
       destruct (lk (get_thread s t)) as [|k [j'|]|k|k [j'|]|k [j'|]]; cbn in *; auto.
+      * intros Hin Hol. apply K4; [exact Hin|]. apply Ho; [lia|exact Hol].
+      * intros Hin Hol. apply K4; [exact Hin|]. apply Ho; [lia|exact Hol].
 Qed.
 
 (* ---- well-formed configurations: dependency names are unique per process ---------------------------------------- *)
@@ -318,8 +337,8 @@ Proof.
   - destruct Hin as [Q|Q]; [congruence|]. now apply IH.
 Qed.
 
-Lemma g_pending_same o g th e : (forall i n, e <> ENewInst i n) -> (forall i n, e <> ERegAdd i n) ->
-  g_pending (g_step o g (th, e)) = g_pending g.
+Lemma g_unregd_same cs o g th e : (forall i n, e <> ENewInst i n) -> (forall i n, e <> ERegAdd i n) ->
+  g_unregd (g_step cs o g (th, e)) = g_unregd g.
 Proof.
   intros N1 N2. unfold g_step. destruct e; cbn; try reflexivity;
   try (exfalso; eapply N1; reflexivity); try (exfalso; eapply N2; reflexivity).
@@ -327,21 +346,27 @@ Proof.
 Qed.
 
 (* frames give the three relations *)
-Lemma Rk_frame e s s' o o' g g' : Rk s o g -> frM2 s s' -> ole e o o' -> g_pending g' = g_pending g -> Rk s' o' g'.
+Lemma Rk_frame e s s' o o' g g' : Rk s o g -> frM2 s s' -> ole e o o' -> g_unregd g' = g_unregd g -> Rk s' o' g'.
 Proof.
   intros K F OL Hp. pose proof K as [K1 K2 K3 K4].
   eapply Rk_gen; eauto.
-  - intros j. now rewrite Hp.
+  - intros i x' Hx'. destruct (f2_inv _ _ _ _ F Hx') as (x & Hx & _ & Hc & _). eauto.
   - intros j yo Q _. left. now rewrite Hp.
   - intros k. unfold registered. now rewrite (f2_running _ _ F), (f2_donereg _ _ F).
   - intros k. now rewrite (f2_donereg _ _ F).
   - intros th i. rewrite (f2_thinst _ _ F). intros Q. destruct (f2_lk _ _ F th) as [E|E]; [left; auto|right].
     specialize (K3 th i Q). destruct (get i (oi o)) as [xo|] eqn:Exo; [|congruence].
     destruct (ole_oi _ _ _ OL i xo Exo) as (y' & E' & _). split; [congruence|].
-    intros xo' _. now apply lk_plain_fact.
+    intros x' xo' _ _. now apply lk_plain_fact.
 Qed.
 
-
+(* the creation stages (Model.stage) are invisible to the three relations *)
+Lemma Rl_stage s o f : Rl s o -> Rl (s <| stage := f |>) o.
+Proof. intros [L1 L2 L3 L4]. constructor; auto. Qed.
+Lemma Rg_stage s o f : Rg s o -> Rg (s <| stage := f |>) o.
+Proof. intros [G1 G2]. constructor; auto. Qed.
+Lemma Rk_stage s o g f : Rk s o g -> Rk (s <| stage := f |>) o g.
+Proof. intros [K1 K2 K3 K4]. constructor; auto. Qed.
 
 Section Main.
 Context (cs : amap pconf).
@@ -349,7 +374,7 @@ Context (cs : amap pconf).
 Definition Rest (s : sys) (o : obs) (g : gst) : Prop := Rl s o /\ Rg s o /\ Rk s o g.
 
 Lemma rest_frame e s s' o o' g g' : Rest s o g -> frL o' s s' -> frM s s' -> ole e o o' ->
-  g_pending g' = g_pending g -> Rest s' o' g'.
+  g_unregd g' = g_unregd g -> Rest s' o' g'.
 Proof.
   intros (L & G & K) FL FM OL Hp. split; [|split]; [eapply Rl_frame|eapply Rg_frame|eapply Rk_frame]; eauto using frM_frM2.
 Qed.
@@ -362,30 +387,47 @@ Lemma rc_on s o n c : Rc cs s o -> get n cs = Some c -> exists r, get n (onm o) 
 Proof. intros HR Hn. destruct (rc_name _ _ _ HR n c Hn) as (v & r & _ & A & _). eauto. Qed.
 
 (* ---- registry events and Rk ---------------------------------------------------------------------------------- *)
-Lemma Rk_regadd e th s o o' g i n x : Rk s o g -> Rc cs s o -> get i (insts s) = Some x -> nm x = n -> ole e o o' ->
-  Rk (s <| running := set n i (running s) |>) o' (g_step o g (th, ERegAdd i n)).
+Lemma in_removeN_iff a k l : In a (removeN k l) <-> In a l /\ a <> k.
 Proof.
-  intros K HR Hx Hn OL. eapply Rk_gen; eauto; cbn.
-  - intros j Q. destruct (g_pending g) as [j0|]; [|discriminate Q]. destruct (N.eqb i j0); [discriminate Q|exact Q].
-  - intros j yo Q Hy. rewrite Q. destruct (N.eqb_spec i j); [|now left]. subst j. right. left. cbn.
+  unfold removeN. rewrite filter_In. split; intros [A B]; (split; [exact A|]).
+  - apply negb_true_iff in B. now apply N.eqb_neq.
+  - apply negb_true_iff. now apply N.eqb_neq.
+Qed.
+
+Lemma Rk_regadd e th s o o' g i n x : Rk s o g -> Rc cs s o -> get i (insts s) = Some x -> nm x = n -> ole e o o' ->
+  Rk (s <| running := set n i (running s) |>) o' (g_step cs o g (th, ERegAdd i n)).
+Proof.
+  intros K HR Hx Hn OL. eapply (Rk_gen e s _ o o' g _ K OL); cbn.
+  - intros j x' Hx'. eauto.
+  - intros j yo Q Hy. destruct (N.eqb_spec j i); [|left; apply in_removeN_iff; auto]. subst j. right. left. cbn.
     destruct (rc_oi _ _ _ _ HR Hx) as (xo & A & B & _). assert (xo = yo) by congruence. subst xo.
     rewrite B, Hn, get_set_same. discriminate.
   - intros k [Q|Q]; [left|right; exact Q]. cbn. rewrite get_set. destruct (N.eqb n k); [discriminate|exact Q].
+  - auto.
+  - intros t j Q. left. split; [exact Q|reflexivity].
 Qed.
 
 Lemma Rk_regdel e th s o o' g i x : Rk s o g -> Minv s -> get i (insts s) = Some x -> pc x = IWgDone -> ole e o o' ->
-  Rk (s <| running := del (nm x) (running s) |>) o' (g_step o g (th, ERegDel i)).
+  Rk (s <| running := del (nm x) (running s) |>) o' (g_step cs o g (th, ERegDel i)).
 Proof.
-  intros K M Hx Hp OL. eapply Rk_gen; eauto; cbn; try (intros j yo Q _; now left).
+  intros K M Hx Hp OL. eapply (Rk_gen e s _ o o' g _ K OL); cbn.
+  - intros j x' Hx'. eauto.
+  - intros j yo Q _. now left.
   - intros k [Q|Q]; [|right; exact Q]. destruct (N.eqb_spec (nm x) k).
     + subst k. right. cbn. eapply (mi_added _ M); eauto. eapply (mi_late _ M); eauto. now rewrite Hp.
     + left. cbn. now rewrite get_del_other.
+  - auto.
+  - intros t j Q. left. split; [exact Q|reflexivity].
 Qed.
 
 Lemma Rk_doneadd e th s o o' g i x : Rk s o g -> get i (insts s) = Some x -> ole e o o' ->
-  Rk (upd_inst i (fun x => x <| d_added := true |>) (s <| donereg := set (nm x) i (donereg s) |>)) o' (g_step o g (th, EDoneAdd i)).
+  Rk (upd_inst i (fun x => x <| d_added := true |>) (s <| donereg := set (nm x) i (donereg s) |>)) o' (g_step cs o g (th, EDoneAdd i)).
 Proof.
-  intros K Hx OL. eapply Rk_gen; eauto; cbn; try (intros j yo Q _; now left).
+  intros K Hx OL. eapply (Rk_gen e s _ o o' g _ K OL); cbn.
+  - intros j x'. rewrite insts_upd_inst. change (insts (s <| donereg := set (nm x) i (donereg s) |>)) with (insts s).
+    destruct (N.eqb i j); [|eauto]. destruct (get j (insts s)) as [y|]; cbn; [|discriminate].
+    intros Q. injection Q as <-. eauto.
+  - intros j yo Q _. now left.
   - intros k [Q|Q]; [left|right]; rewrite ?upd_inst_running, ?upd_inst_donereg; cbn; [exact Q|].
     rewrite get_set. destruct (N.eqb (nm x) k); [discriminate|exact Q].
   - intros k Q. rewrite upd_inst_donereg. cbn. rewrite get_set. destruct (N.eqb (nm x) k); [discriminate|exact Q].
@@ -393,33 +435,38 @@ Proof.
 Qed.
 
 Lemma Rk_set_thread e th0 ev s o o' g t' th : Rk s o g -> ole e o o' ->
-  g_pending (g_step o g (th0, ev)) = g_pending g ->
-  (forall i xo, get th (thinst s) = Some i -> get i (oi o) = Some xo -> lk_fact s o (o_idx xo) (lk t')) ->
-  Rk (set_thread th t' s) o' (g_step o g (th0, ev)).
+  g_unregd (g_step cs o g (th0, ev)) = g_unregd g ->
+  (forall i x xo, get th (thinst s) = Some i -> get i (insts s) = Some x -> get i (oi o) = Some xo ->
+                  lk_fact s o (dnames x) (o_idx xo) (lk t')) ->
+  Rk (set_thread th t' s) o' (g_step cs o g (th0, ev)).
 Proof.
-  intros K OL Hp Hl. pose proof K as [K1 K2 K3 K4]. eapply Rk_gen; eauto.
-  - intros j. now rewrite Hp.
+  intros K OL Hp Hl. pose proof K as [K1 K2 K3 K4]. eapply (Rk_gen e s _ o o' g _ K OL).
+  - intros j x' Hx'. eauto.
   - intros j yo Q _. left. now rewrite Hp.
-  - intros t j. cbn [thinst set_thread]. change (thinst (set_thread th t' s)) with (thinst s).
+  - auto.
+  - auto.
+  - intros t j. change (thinst (set_thread th t' s)) with (thinst s).
     rewrite get_thread_set_thread. intros Q. destruct (N.eqb_spec th t); [subst t; right|left; auto].
     specialize (K3 th j Q). destruct (get j (oi o)) as [xo|] eqn:Exo; [|congruence].
     destruct (ole_oi _ _ _ OL j xo Exo) as (y' & E' & (_ & L2 & _)). split; [congruence|].
-    intros xo' Hxo'. assert (y' = xo') by congruence. subst y'. rewrite L2.
+    intros x' xo' Hx' Hxo'. assert (y' = xo') by congruence. subst y'. rewrite L2.
     eapply (lk_fact_mono e s (set_thread th t' s)); eauto.
 Qed.
 
 Lemma Rk_begin e th0 ev s o o' g th i : Rk s o g -> ole e o o' -> get th (threads s) = None -> get i (oi o) <> None ->
-  g_pending (g_step o g (th0, ev)) = g_pending g ->
-  Rk (s <| thinst := set th i (thinst s) |>) o' (g_step o g (th0, ev)).
+  g_unregd (g_step cs o g (th0, ev)) = g_unregd g ->
+  Rk (s <| thinst := set th i (thinst s) |>) o' (g_step cs o g (th0, ev)).
 Proof.
-  intros K OL Ht Hi Hp. eapply Rk_gen; eauto.
-  - intros j. now rewrite Hp.
+  intros K OL Ht Hi Hp. eapply (Rk_gen e s _ o o' g _ K OL).
+  - intros j x' Hx'. eauto.
   - intros j yo Q _. left. now rewrite Hp.
+  - auto.
+  - auto.
   - intros t j. cbn. rewrite get_set. destruct (N.eqb_spec th t).
     + subst t. intros Q. injection Q as <-. right.
       destruct (get i (oi o)) as [xo|] eqn:Exo; [|congruence].
       destruct (ole_oi _ _ _ OL i xo Exo) as (y' & E' & _). split; [congruence|].
-      intros xo' _. unfold get_thread. cbn. rewrite Ht. exact I.
+      intros x' xo' _ _. unfold get_thread. cbn. rewrite Ht. exact I.
     + intros Q. left. split; [exact Q|reflexivity].
 Qed.
 
@@ -489,9 +536,9 @@ Qed.
 Definition reg_ev (e : event) : bool := match e with ENewInst _ _ | ERegAdd _ _ => true | _ => false end.
 
 Lemma not_reg_ole o th e g : reg_ev e = false ->
-  ole e o (obs_step cs o (th, e)) /\ g_pending (g_step o g (th, e)) = g_pending g.
+  ole e o (obs_step cs o (th, e)) /\ g_unregd (g_step cs o g (th, e)) = g_unregd g.
 Proof.
-  intros H. split; [apply obs_step_ole|apply g_pending_same]; intros i n ->; discriminate H.
+  intros H. split; [apply obs_step_ole|apply g_unregd_same]; intros i n ->; discriminate H.
 Qed.
 
 Lemma api_not_reg s th e s' : step_api s th e = Some s' -> reg_ev e = false.
@@ -511,9 +558,9 @@ Proof. unfold gbad. destruct (g_unreg g), (g_newer g), (g_endov g); cbn; intros;
 (* the non-own kinds *)
 Lemma core_step_other s o g th e s' :
   Rc cs s o -> Oinv o -> Minv s -> Rest s o g ->
-  step_core s th e = Some s' -> gbad (g_step o g (th, e)) = false ->
-  (step_own s th e = Some s' -> Rest s' (obs_step cs o (th, e)) (g_step o g (th, e))) ->
-  Rest s' (obs_step cs o (th, e)) (g_step o g (th, e)).
+  step_core s th e = Some s' -> gbad (g_step cs o g (th, e)) = false ->
+  (step_own s th e = Some s' -> Rest s' (obs_step cs o (th, e)) (g_step cs o g (th, e))) ->
+  Rest s' (obs_step cs o (th, e)) (g_step cs o g (th, e)).
 Proof.
   intros HR HO M HRest H Hg Hnown. pose proof HRest as (L & G & K).
   destruct (step_core_kind _ _ _ _ H) as [? ?|i x ? Hx Hth Hthr Hfresh ?|Hk|Hk|Hk|i s0 ? Hk|i s0 b ? Hk|Hk|i ? Hk|Hk|Hk].
@@ -524,31 +571,31 @@ Proof.
     split; [|split].
     + eapply Rl_frame; [exact L|apply frL_eq; reflexivity|exact OL].
     + eapply Rg_insts; [exact G|exact OL|]. intros j. cbn. destruct (get j (insts s)); eauto using pc_ok_refl.
-    + eapply Rk_begin; eauto. congruence.
+    + apply Rk_stage. eapply Rk_begin; eauto. congruence.
   - (* registry *)
     destruct e; try (cbn in Hk; discriminate Hk).
     + (* ENewInst *)
       destruct (reg_newinst _ _ _ _ _ Hk) as (c & Hc & Hi & ->).
       pose proof (rc_noinst _ _ _ HR i Hi) as Hoi.
       destruct (obs_step_new cs o th i n) as (o1 & OL1 & B1 & B2 & B3).
-      assert (Hpn : g_pending g = None).
-      { destruct (gbad_parts _ Hg) as (Q & _ & _). cbn in Q.
-        destruct (g_pending g); [rewrite orb_true_r in Q; discriminate|reflexivity]. }
-      assert (R1 : Rest (s <| insts := set i (new_inst n c) (insts s) |>) o1 (g_step o g (th, ENewInst i n))).
+      assert (Hfl : dep_unregistered cs o g n = false).
+      { destruct (gbad_parts _ Hg) as (Q & _ & _). cbn in Q. apply orb_false_iff in Q. apply Q. }
+      assert (Hcf : conf_of cs n = c) by (unfold conf_of; rewrite <- (rc_confs _ _ _ HR), Hc; reflexivity).
+      assert (R1 : Rest (s <| insts := set i (new_inst n c) (insts s) |>) o1 (g_step cs o g (th, ENewInst i n))).
       { split; [|split].
         - eapply Rl_new; eauto.
         - eapply Rg_new; eauto.
         - eapply Rk_new; eauto. }
-      destruct R1 as (L1 & G1 & K1). split; [|split].
-      * eapply Rl_frame; [exact L1|apply frL_refl|exact OL1].
-      * eapply Rg_frame; [exact G1|apply frM_refl|exact OL1].
-      * eapply Rk_frame; [exact K1|apply frM_frM2, frM_refl|exact OL1|reflexivity].
+      destruct R1 as (L1 & G1 & K1). unfold set_stage. split; [|split].
+      * apply Rl_stage. eapply Rl_frame; [exact L1|apply frL_refl|exact OL1].
+      * apply Rg_stage. eapply Rg_frame; [exact G1|apply frM_refl|exact OL1].
+      * apply Rk_stage. eapply Rk_frame; [exact K1|apply frM_frM2, frM_refl|exact OL1|reflexivity].
     + (* ERegAdd *)
       assert (OL : ole (ERegAdd i n) o (obs_step cs o (th, ERegAdd i n))) by (apply obs_step_ole; intros; discriminate).
       split; [|split].
       * eapply Rl_frame; [exact L|eapply step_reg_frL; [exact Hk|intros; discriminate]|exact OL].
       * eapply Rg_insts; [exact G|exact OL|eapply reg_insts_same; [exact Hk|intros; discriminate]].
-      * destruct (reg_regadd _ _ _ _ _ Hk) as (x & Hx & Hn & ->). eapply Rk_regadd; eauto.
+      * destruct (reg_regadd _ _ _ _ _ Hk) as (x & Hx & Hn & ->). unfold set_stage. apply Rk_stage. eapply Rk_regadd; eauto.
     + (* ERegDel *)
       assert (OL : ole (ERegDel i) o (obs_step cs o (th, ERegDel i))) by (apply obs_step_ole; intros; discriminate).
       split; [|split].
@@ -561,13 +608,9 @@ Proof.
       * eapply Rl_frame; [exact L|eapply step_reg_frL; [exact Hk|intros; discriminate]|exact OL].
       * eapply Rg_insts; [exact G|exact OL|eapply reg_insts_same; [exact Hk|intros; discriminate]].
       * destruct (reg_regget _ _ _ _ _ Hk) as (Hf & t' & -> & Hl). eapply Rk_set_thread; eauto.
-        intros i xo Hti Hxo. destruct Hl as [[Hold Hnew]|Hnew]; rewrite Hnew; cbn; [|exact I].
-        destruct found; [exact I|]. intros (j & yo & A & B & C).
-        destruct (rk_reg _ _ _ K j yo A) as [Q|[Q|Q]].
-        -- destruct (rk_pending _ _ _ K j Q) as (yo2 & A2 & B2). assert (yo2 = yo) by congruence. subst yo2.
-           destruct HO as [_ HO2]. specialize (HO2 i xo Hxo). lia.
-        -- rewrite B in Q. congruence.
-        -- now rewrite B in Q.
+        intros i x xo Hti Hx Hxo. destruct Hl as [[Hold Hnew]|Hnew]; rewrite Hnew; cbn; [|exact I].
+        destruct found; [exact I|]. intros Hin Hol.
+        destruct (rk_dep _ _ _ K i x xo Hx Hxo n Hin Hol) as [Q|Q]; [congruence|exact Q].
     + (* EDoneAdd *)
       assert (OL : ole (EDoneAdd i) o (obs_step cs o (th, EDoneAdd i))) by (apply obs_step_ole; intros; discriminate).
       split; [|split].
@@ -580,9 +623,9 @@ Proof.
       * eapply Rl_frame; [exact L|eapply step_reg_frL; [exact Hk|intros; discriminate]|exact OL].
       * eapply Rg_insts; [exact G|exact OL|eapply reg_insts_same; [exact Hk|intros; discriminate]].
       * destruct (reg_doneget _ _ _ _ _ Hk) as (Hf & t' & -> & Hl). eapply Rk_set_thread; eauto.
-        intros i xo Hti Hxo. destruct Hl as [[Hold Hnew]|Hnew]; rewrite Hnew; cbn; [|exact I].
-        destruct found; [exact I|]. intros Hol.
-        pose proof (rk_lk _ _ _ K th i xo Hti Hxo) as Q. rewrite Hold in Q. cbn in Q. apply Q in Hol. congruence.
+        intros i x xo Hti Hx Hxo. destruct Hl as [[Hold Hnew]|Hnew]; rewrite Hnew; cbn; [|exact I].
+        destruct found; [exact I|]. intros Hin Hol.
+        pose proof (rk_lk _ _ _ K th i x xo Hti Hx Hxo) as Q. rewrite Hold in Q. cbn in Q. specialize (Q Hin Hol). congruence.
   - (* api *) destruct (not_reg_ole o th e g (api_not_reg _ _ _ _ Hk)) as [OL Hp].
     eapply rest_frame; eauto using step_api_frL, step_api_frM.
   - (* stop *) destruct (not_reg_ole o th e g (stop_not_reg _ _ _ _ Hk)) as [OL Hp].
@@ -643,6 +686,12 @@ Proof.
   destruct (N.eqb_spec k1 k); try discriminate; intros; subst; reflexivity.
 Qed.
 
+Lemma dep_cond_in c k cc : dep_cond c k = Some cc -> In k (map fst (deps c)).
+Proof.
+  unfold dep_cond. destruct (find _ _) as [p|] eqn:F; [|discriminate]. intros _.
+  apply find_some in F. destruct F as [F1 F2]. apply N.eqb_eq in F2. subst k. now apply in_map.
+Qed.
+
 Lemma wf_nodup n c : wf_confs cs = true -> get n cs = Some c -> nodupN (map fst (deps c)) = true.
 Proof.
   intros Hwf Hn. unfold wf_confs in Hwf. rewrite forallb_forall in Hwf. apply get_in in Hn. exact (Hwf _ Hn).
@@ -650,8 +699,8 @@ Qed.
 
 Lemma core_step_own s o g th e s' :
   wf_confs cs = true -> Rc cs s o -> Oinv o -> Refreshed o -> Minv s -> Rest s o g ->
-  step_own s th e = Some s' -> gbad (g_step o g (th, e)) = false ->
-  Rest s' (obs_step cs o (th, e)) (g_step o g (th, e)).
+  step_own s th e = Some s' -> gbad (g_step cs o g (th, e)) = false ->
+  Rest s' (obs_step cs o (th, e)) (g_step cs o g (th, e)).
 Proof.
   intros Hwf HR HO HF M (L & G & K) H Hg.
   destruct (not_reg_ole o th e g (own_not_reg _ _ _ _ H)) as [OL Hp].
@@ -677,8 +726,8 @@ Proof.
         destruct (N.eqb_spec k0 k).
         -- subst k0. destruct found as [j|]; cbn in Hr; injection Hr as <-; [exfalso; apply Hnl; now left|].
            left. intros j yo' Hj Hnm Hlt.
-           pose proof (rk_lk _ _ _ K th i xo Ht Exo) as Q. rewrite (thread_lookup_none _ _ P3) in Q. cbn in Q.
-           apply Q. eapply older_inv; [exact OL|]. exists j, yo'. auto.
+           pose proof (rk_lk _ _ _ K th i x xo Ht Hx Exo) as Q. rewrite (thread_lookup_none _ _ P3) in Q. cbn in Q.
+           apply Q; [eapply dep_cond_in; eauto|]. eapply older_inv; [exact OL|]. exists j, yo'. auto.
         -- eapply Gate_mono; [exact OL|]. eapply (rg_gate _ _ G i x xo todo); eauto.
            intros Hin2. apply Hnl. destruct found as [j|]; cbn in Hr; injection Hr as <-; [right|]; now apply in_removeN.
       * intros x2 xo' k1 c1 j1 todo1 Hx2 Hxo' Hpc. assert (x2 = x') by congruence. subst x2.
@@ -736,7 +785,7 @@ Proof.
 Qed.
 
 Lemma R_step s o g th e s' : wf_confs cs = true -> R s o g -> step s (th, e) = Some s' ->
-  R s' (obs_step cs o (th, e)) (g_step o g (th, e)) /\ (mon_C01 cs o (th, e) = true \/ gbad g = true).
+  R s' (obs_step cs o (th, e)) (g_step cs o g (th, e)) /\ (mon_C01 cs o (th, e) = true \/ gbad g = true).
 Proof.
   intros Hwf [HR HO HF M HRest] H.
   assert (Flush : gbad g = false ->
@@ -755,7 +804,7 @@ Proof.
     + eapply Minv_step; eauto.
     + intros Hg.
       assert (Hg0 : gbad g = false).
-      { destruct (gbad g) eqn:E; [|reflexivity]. rewrite (gbad_mono o g (th, e) E) in Hg. discriminate. }
+      { destruct (gbad g) eqn:E; [|reflexivity]. rewrite (gbad_mono cs o g (th, e) E) in Hg. discriminate. }
       destruct (Flush Hg0) as (HR0 & M0 & Rest0). unfold step in H. cbn [fst snd] in H.
       eapply core_step_other; eauto. intros Hown. eapply core_step_own; eauto.
   - destruct (gbad g) eqn:Hg0; [now right|left].
